@@ -13,11 +13,11 @@ claimed = {
  "C09": ("Quantize / RoundToIntegral / Ceil / Floor against an integer-rounding characterisation", "§5 C09"),
  "C10": ("QuoInteger/Rem division identity over the upscaled integers", "§5 C10"),
  "C04": ("run-time panic obligations on every executed instruction, parser well-formedness on all short byte strings, bounded-termination (hang) check of the iterative functions under every trap set", "§5 C04"),
- "C13": ("format -> parse round trip on symbolic decimals for every text form; Compose(Decompose)", "§5 C13"),
+ "C13": ("format -> parse round trip on symbolic decimals for every text form; Compose(Decompose); SetFloat64 then Float64 on every normal float64 of an exponent window (float64 as exact integers, strconv by contract)", "§5 C13, §12a"),
  "C14": ("String against an independent to-scientific-string formatter; parser acceptance against the unrolled grammar for ALL ASCII strings up to 7 bytes; Format flags", "§5 C14"),
  "C15": ("Cmp against cross-scaled integers, CmpTotal against a totally ordered key", "§5 C15"),
  "C16": ("one inductive step of each BigInt method from arbitrary valid representations against math/big semantics: real inner/updateInner/uint64 fast paths executed from SSA in bit-vector logic, representation invariant incl. zero-never-negative, operands unchanged, alias patterns", "§5 C16"),
- "C17": ("Int64, Modf and the integer constructors are exact", "§5 C17"),
+ "C17": ("Int64, Modf and the integer constructors are exact; Float64 is the nearest float64 (float64 arithmetic as exact integers)", "§5 C17, §12a"),
  "C18": ("no encoded operation writes shared memory (write-set monitor), hence no race under any interleaving", "§5 C18"),
  "C20": ("the eight rounding modes bracket each other; commutativity, mirror, scaling and monotonicity relations by self-composition, no oracle", "§5 C20"),
  "C19": ("real NumDigits code for every bit length; Reduce value, count and no trailing zero", "§5 C19"),
